@@ -122,10 +122,49 @@ def deep_inputs():
         out.append(('stmts-%d' % n, 'int y; void f(void) { %s }' % ' '.join('y++;' for i in range(n))))
         out.append(('labels-%d' % n, 'void f(void) { %s }' % ' '.join('l%d: ;' % i for i in range(n))))
         out.append(('macro-params-%d' % min(n, 5000), '#define F(%s) 1\nint x = F(%s);' % (', '.join('p%d' % i for i in range(min(n, 5000))), ', '.join('1' for i in range(min(n, 5000))))))
+    # spellings that exactly fill a growable buffer (capacities are powers of two)
+    for n in (254, 255, 256, 257, 511, 512, 513, 1023, 1024, 1025, 2047, 2048, 4095, 4096, 4097, 65535, 65536):
+        out.append(('ident-exact-%d' % n, 'int %s;' % ('a' * n)))
+        out.append(('string-exact-%d' % n, 'char s[] = "%s";' % ('x' * (n - 2))))
+        out.append(('number-exact-%d' % n, 'double x = 1.%s;' % ('1' * (n - 2))))
+        out.append(('two-idents-%d' % n, 'int %s; int %s;' % ('b' * (n + 44), 'a' * n)))
+        out.append(('macro-name-%d' % n, '#define %s 1\nint x = %s;' % ('m' * n, 'm' * n)))
+        out.append(('strarg-exact-%d' % n, '#define S(x) #x\nchar s[] = S(%s);' % ('y' * (n - 3))))
     for n in (30, 31, 32, 33, 40, 100):
         out.append(('designators-%d' % n, 'struct S%d { int x; };\n' % 0 + ''.join('struct S%d { struct S%d s; };\n' % (i + 1, i) for i in range(n)) + 'struct S%d v = { %sx = 1 };' % (n, '.s' * n + '.')))
         out.append(('array-designators-%d' % n, 'int a%s = { %s = 1 };' % ('[2]' * n, '[1]' * n)))
         out.append(('brace-init-%d' % n, 'int a%s = %s1%s;' % ('[1]' * n, '{' * n, '}' * n)))
+    return out
+
+
+def trap_inputs():
+    """every arithmetic operator on boundary constants, in constant and in run-time position"""
+    vals = ['0', '1', '-1', '2', '-2', '63', '64', '65', '31', '32', '-64', '2147483647', '(-2147483647 - 1)', '4294967295u', '9223372036854775807L', '(-9223372036854775807L - 1)',
+            '18446744073709551615UL', '0x8000000000000000UL', '1e30', '-1e30', '1e300', '-0.0', '0.0', '1e-320', '(1.0 / 3)', '0x7fffffffffffffffLL', '(char)-128', '(unsigned char)255', '(short)-32768']
+    ops = ['/', '%', '<<', '>>', '*', '+', '-', '&', '|', '^', '<', '==', '&&', '||']
+    casts = ['int', 'unsigned', 'long', 'unsigned long', 'char', 'unsigned char', 'short', '_Bool', 'float', 'double', 'long long', 'unsigned long long', 'signed char', 'unsigned short']
+    out = []
+    lines = []
+    k = 0
+    for op in ops:
+        for a in vals:
+            for b in vals:
+                lines.append('long long t%d = (%s) %s (%s);' % (k, a, op, b))
+                k += 1
+    for c in casts:
+        for a in vals:
+            lines.append('%s u%d = (%s)(%s);' % (c, k, c, a))
+            lines.append('long long w%d = (long long)(%s)(%s);' % (k, c, a))
+            k += 1
+    for a in vals:
+        for u in ['-', '~', '!', '+']:
+            lines.append('long long v%d = %s(%s);' % (k, u, a))
+            k += 1
+    # each line alone (a diagnosed error on one line must not hide the others)
+    for i, l in enumerate(lines):
+        out.append(('trap-%d' % i, l))
+        if i % 7 == 0:
+            out.append(('trap-rt-%d' % i, 'long long f%d(void) { %s return %s; }' % (i, l, re.match(r'[\w ]+ (\w+) =', l).group(1))))
     return out
 
 
@@ -195,6 +234,34 @@ def run(tier):
                     n = int(name.rsplit('-', 1)[1])
                     survived[k] = max(survived.get(k, 0), n)
     ck.extra['deepest_survived'] = survived
+    # arithmetic traps: boundary constants through every operator and cast (both builds)
+    traps = trap_inputs()
+    for exe, san in ((plain, False), (asan, True)):
+        lst = [(n, t.encode(), 'stdin') for n, t in traps]
+        for res in common.pmap(_batch, [(exe, lst[i:i + 300], san) for i in range(0, len(lst), 300)]):
+            for name, c, status, data in res:
+                ck.evaluations += 1
+                ck.decided += 1
+                if c:
+                    crashes.setdefault('trap:' + c[0], []).append((c[1], data, name))
+    ck.extra['arithmetic_trap_cases'] = len(traps) * 2
+    # a single failing write at every position of a multi-buffer output must be reported
+    bigsrc = ''.join('int f%d(int a, int b) { return a * %d + b; }\n' % (i, i) for i in range(600))
+    bigp = os.path.join(wd, 'bigout.c')
+    common.write(bigp, bigsrc)
+    base = common.cproc(plain, bigp)
+    nw = (len(base.out) + 4095) // 4096
+    for k in range(1, nw + 1):
+        for errno in ('ENOSPC', 'EIO', 'EDQUOT'):
+            of = os.path.join(wd, 'wf.out')
+            with open(of, 'wb') as f:
+                p = subprocess.run(['strace', '-o', '/dev/null', '-e', 'trace=write', '-e', 'inject=write:error=%s:when=%d' % (errno, k), plain, bigp], stdout=f, stderr=subprocess.PIPE)
+            ck.evaluations += 1
+            ck.decided += 1
+            ck.distinct.add('wf:%d:%s' % (k, errno))
+            if p.returncode == 0 and os.path.getsize(of) != len(base.out):
+                crashes.setdefault('io:write-error:status0', []).append(('write #%d of %d failing once with %s is not reported: status 0 with %d of %d bytes written' % (k, nw, errno, os.path.getsize(of), len(base.out)), bigsrc.encode()[:2000], 'write-fault'))
+    ck.extra['write_fault_positions'] = nw
     # option sets and I/O faults
     good = os.path.join(wd, 'ok.c')
     common.write(good, 'int main(void) { return 0; }\n')
